@@ -6,6 +6,8 @@
 // (c) interruption: stop signal before / after n bytes of save and recover (n swept over the
 //     stream): the call reports ErrSnapshotStopped and the receiver still shows its old state, and a
 //     later complete recovery succeeds (a crash during recover is C04's crash enumeration);
+// (e) install interrupted at every file-system operation by a process kill and by a power loss:
+//     after the restart the replica opens and shows its complete old or the complete new state;
 // (d) reads overlapping an install (single reads, read-only transactions, lazily consumed and
 //     in-flight streamed reads, via callback and via util/iter.Pull as the gRPC server does):
 //     old state, new state or an error — never a panic, fatal error, hang or a state that never
@@ -31,6 +33,7 @@ import (
 	"github.com/jamf/regatta/util/iter"
 	sm "github.com/lni/dragonboat/v4/statemachine"
 
+	"verifharness/internal/crashfs"
 	"verifharness/internal/ev"
 	"verifharness/internal/fsmx"
 	"verifharness/internal/gen"
@@ -80,6 +83,8 @@ func main() {
 			runInterrupt(r, w.Case)
 		case "overlap":
 			runOverlapRange(r, w.Case.N, w.Case.N+1)
+		case "install-fault":
+			runInstallFaults(r, w.Case)
 		}
 		r.Finish()
 	}
@@ -89,6 +94,9 @@ func main() {
 	for i, n := 0, r.Pick(24, 400); i < n; i++ {
 		runInterrupt(r, caseID{Kind: "interrupt", Seed: r.Seed*2_000_003 + int64(i)})
 	}
+	ev.Parallel(r.Pick(8, 80), 8, func(i int) {
+		runInstallFaults(r, caseID{Kind: "install-fault", Seed: r.Seed*4_000_003 + int64(i)})
+	})
 	runOverlapRange(r, 0, r.Pick(120, 2400))
 	if rep := racelog.Scan(); rep != nil {
 		// reads overlapping an install are exactly what this property is about: a race report with
@@ -122,6 +130,8 @@ func main() {
 	r.FloorDistinct("transfer_format_pairs", 4)
 	r.FloorCount("interruptions_that_cut_the_stream", int64(r.Pick(100, 1500)))
 	r.FloorCount("overlap_schedules", int64(r.Pick(100, 2000)))
+	r.FloorCount("install_faults_kill", int64(r.Pick(200, 2000)))
+	r.FloorCount("install_faults_power-loss", int64(r.Pick(200, 2000)))
 	r.Finish()
 }
 
@@ -916,4 +926,119 @@ func headOf(s string, n int) string {
 		return s[:n]
 	}
 	return s
+}
+
+// runInstallFaults: the install is interrupted at every file-system operation boundary, once by a
+// process kill (everything done so far stays, nothing more happens) and once by a power loss
+// (everything not yet durable is lost). After the restart the replica must open and show either
+// its complete previous state or the complete installed state.
+func runInstallFaults(r *ev.Run, id caseID) {
+	g := gen.New(id.Seed)
+	g.NewPool(6)
+	fa, fb := fsm.SnapshotRecoveryType(g.R.Intn(2)), fsm.SnapshotRecoveryType(g.R.Intn(2))
+	w := witness{Case: id}
+	saver, err := fsmx.Fresh("t", fa)
+	if err != nil {
+		r.Violation("fsm-open", err.Error(), w)
+		return
+	}
+	newEntries := genEntries(g, 4+g.R.Intn(10), 20)
+	if _, err := saver.Update(newEntries); err != nil {
+		saver.Close()
+		r.Violation("update-error", err.Error(), w)
+		return
+	}
+	newM := model.NewTable()
+	applyModel(newM, newEntries)
+	snap, err := saver.Snapshot()
+	saver.Close()
+	if err != nil {
+		r.Violation("save-error", err.Error(), w)
+		return
+	}
+	var oldEntries []sm.Entry
+	for j := 1; j <= 5; j++ {
+		li := uint64(j)
+		oldEntries = append(oldEntries, fsmx.Entry(uint64(j), &pb.Command{Table: []byte("t"), Type: pb.Command_PUT, LeaderIndex: &li, Kv: &pb.KeyValue{Key: []byte(fmt.Sprintf("old-receiver-key-%d", j)), Value: []byte("old")}}))
+	}
+	oldM := model.NewTable()
+	applyModel(oldM, oldEntries)
+	// prepare(fs) brings a receiver with durable old content onto fs and returns it
+	prepare := func(fs *crashfs.FS) (*fsmx.T, error) {
+		t := fsmx.New(fs, "t", 10001, 1, fb, nil)
+		if _, err := t.SM.Open(nil); err != nil {
+			return nil, err
+		}
+		if _, err := t.Update(oldEntries); err != nil {
+			return nil, err
+		}
+		return t, t.SM.Sync()
+	}
+	fs0 := crashfs.New(fsmx.BaseDir)
+	t0, err := prepare(fs0)
+	if err != nil {
+		r.Violation("receiver-setup", err.Error(), w)
+		return
+	}
+	before := fs0.Ops()
+	if err := t0.Recover(snap); err != nil {
+		t0.Close()
+		r.Violation("recover-error", err.Error(), w)
+		return
+	}
+	n := fs0.Ops() - before
+	t0.Close()
+	for k := before + 1; k <= before+n+1; k++ {
+		for _, mode := range []string{"kill", "power-loss"} {
+			fs := crashfs.New(fsmx.BaseDir)
+			t, err := prepare(fs)
+			if err != nil {
+				r.Violation("receiver-setup", err.Error(), w)
+				return
+			}
+			fs.SetPhase("install")
+			if mode == "kill" {
+				fs.KillAt(k)
+			} else {
+				fs.CrashAt(k)
+			}
+			recErr := t.Recover(snap)
+			_ = t.Close()
+			op := fs.CrashOp()
+			if mode == "kill" {
+				op = fs.KillOp()
+				fs.RestartAfterKill()
+			} else {
+				fs.Restart()
+			}
+			at := fmt.Sprintf("%s before %s (formats %d->%d, install returned %v)", mode, op, fa, fb, recErr)
+			w.Detail = []string{at}
+			t2 := fsmx.New(fs, "t", 10001, 1, fb, nil)
+			if _, err := t2.SM.Open(nil); err != nil {
+				r.Violation("reopen-fails-after-interrupted-install:"+mode, fmt.Sprintf("Open fails after the install was interrupted: %v [%s]", err, at), w)
+				return
+			}
+			d, err := t2.Dump()
+			t2.Close()
+			if err != nil {
+				r.Violation("dump-error-after-interrupted-install", err.Error()+" ["+at+"]", w)
+				return
+			}
+			if fsmx.Diff(d, oldM) != "" && fsmx.Diff(d, newM) != "" {
+				sig := "interrupted-install-leaves-neither-old-nor-new-state:" + mode
+				r.Violation(sig, fmt.Sprintf("after the restart the replica shows neither its previous state (%s) nor the installed state (%s) [%s]", fsmx.Diff(d, oldM), fsmx.Diff(d, newM), at), w)
+				return
+			}
+			r.Count("install_faults_"+mode, 1)
+			r.Distinct("install_fault_sites", mode+"|"+op.Kind+"|"+op.Class)
+			if fsmx.Diff(d, oldM) == "" {
+				r.Count("install_faults_old_state_kept", 1)
+			} else {
+				r.Count("install_faults_new_state_installed", 1)
+			}
+			r.Nontrivial(fmt.Sprint("install-fault", id.Seed, k, mode))
+		}
+	}
+	r.Eval(1)
+	r.Sample(map[string]any{"kind": "install-fault", "formats": fmt.Sprintf("%d->%d", fa, fb), "fs_operations_of_the_install": n})
 }
